@@ -39,13 +39,13 @@ VARIABLES
   toPull,     \* [g -> SUBSET Nat] chunk numbers whose DataPullReq is not sent yet (toPullFromAnotherPMC)
   wmap,       \* [g -> [id -> addr]] reqIDToWriteAddressMap
   pending,    \* [g -> Int]        numDataRspPendingForPageMigration (-1 = idle)
-  writeQ,     \* [g -> set of [addr, data]] writeReqLocalMemPort
+  writeQ,     \* [g -> Seq([addr, data])] writeReqLocalMemPort
   toCtrl,     \* [g -> Seq(req)]   toSendToCtrlPort (0 or 1 element: the request being reported)
   ctrlOut,    \* [g -> Seq(req)]   control port, outgoing buffer
   \* ---- owner side of PMC g
-  readQ,      \* [g -> set of [id, addr, n]] pulls received, read not sent yet
+  readQ,      \* [g -> Seq([id, addr, n])] pulls received, read not sent yet (toSendLocalMemPort)
   requester,  \* [g -> GPU or 0]   requestingPMCtrlPort (source of the last pull received)
-  rspQ,       \* [g -> set of [id, data, dst]] toRspToAnotherPMC
+  rspQ,       \* [g -> Seq([id, data, dst])] toRspToAnotherPMC
   \* ---- ports shared by both roles
   remOut, remIn,   \* [g -> Seq(msg)] remote port
   memOut, memIn,   \* [g -> Seq(msg)] local memory port
@@ -75,13 +75,14 @@ Data(id, s, d, dat) == [k |-> "data", id |-> id, src |-> s, dst |-> d, addr |-> 
 Rd(id, a, n)        == [k |-> "r", id |-> id, addr |-> a, n |-> n, data |-> <<>>]
 Wr(id, a, dat)      == [k |-> "w", id |-> id, addr |-> a, n |-> Len(dat), data |-> dat]
 MRsp(k, id, dat)    == [k |-> k, id |-> id, data |-> dat]
+RemoveAt(s, i) == SubSeq(s, 1, i - 1) \o SubSeq(s, i + 1, Len(s))
 
 EmptyInit(memory) ==
   /\ ctrlIn = [g \in GPUs |-> <<>>] /\ cur = [g \in GPUs |-> NoReq]
   /\ handling = [g \in GPUs |-> FALSE] /\ toPull = [g \in GPUs |-> {}]
   /\ wmap = [g \in GPUs |-> <<>>] /\ pending = [g \in GPUs |-> -1]
-  /\ writeQ = [g \in GPUs |-> {}] /\ toCtrl = [g \in GPUs |-> <<>>] /\ ctrlOut = [g \in GPUs |-> <<>>]
-  /\ readQ = [g \in GPUs |-> {}] /\ requester = [g \in GPUs |-> 0] /\ rspQ = [g \in GPUs |-> {}]
+  /\ writeQ = [g \in GPUs |-> <<>>] /\ toCtrl = [g \in GPUs |-> <<>>] /\ ctrlOut = [g \in GPUs |-> <<>>]
+  /\ readQ = [g \in GPUs |-> <<>>] /\ requester = [g \in GPUs |-> 0] /\ rspQ = [g \in GPUs |-> <<>>]
   /\ remOut = [g \in GPUs |-> <<>>] /\ remIn = [g \in GPUs |-> <<>>]
   /\ memOut = [g \in GPUs |-> <<>>] /\ memIn = [g \in GPUs |-> <<>>]
   /\ net = {} /\ memPend = [g \in GPUs |-> {}] /\ mem = memory
@@ -120,17 +121,17 @@ RecvPullRsp(g) ==
   /\ remIn[g] # <<>> /\ Head(remIn[g]).k = "data"
   /\ LET m == Head(remIn[g]) IN
      /\ m.id \in DOMAIN wmap[g]
-     /\ writeQ' = [writeQ EXCEPT ![g] = @ \cup {[addr |-> wmap[g][m.id], data |-> m.data]}]
+     /\ writeQ' = [writeQ EXCEPT ![g] = Append(@, [addr |-> wmap[g][m.id], data |-> m.data])]
      /\ wmap'   = [wmap   EXCEPT ![g] = [i \in (DOMAIN @) \ {m.id} |-> @[i]]]
   /\ remIn' = [remIn EXCEPT ![g] = Tail(@)]
   /\ UNCHANGED <<ctrlIn, cur, handling, toPull, pending, toCtrl, ctrlOut, ownv, remOut, memOut, memIn, envv, histv>>
 
-\* sendWriteReqLocalMemPort
-SendWrite(g, w, id) ==
-  /\ w \in writeQ[g] /\ Len(memOut[g]) < PortCap
+\* sendWriteReqLocalMemPort (the code sends in queue order; any queued write may go first here)
+SendWrite(g, i, id) ==
+  /\ i \in 1..Len(writeQ[g]) /\ Len(memOut[g]) < PortCap
   /\ id \notin usedIds /\ usedIds' = usedIds \cup {id}
-  /\ memOut' = [memOut EXCEPT ![g] = Append(@, Wr(id, w.addr, w.data))]
-  /\ writeQ' = [writeQ EXCEPT ![g] = @ \ {w}]
+  /\ memOut' = [memOut EXCEPT ![g] = Append(@, Wr(id, writeQ[g][i].addr, writeQ[g][i].data))]
+  /\ writeQ' = [writeQ EXCEPT ![g] = RemoveAt(@, i)]
   /\ UNCHANGED <<ctrlIn, cur, handling, toPull, wmap, pending, toCtrl, ctrlOut, ownv, remOut, remIn, memIn, envv,
                  issued, accepted, done, pullSrc, mem0>>
 
@@ -148,23 +149,23 @@ SendComplete(g) ==
 RecvPull(g) ==
   /\ remIn[g] # <<>> /\ Head(remIn[g]).k = "pull"
   /\ LET m == Head(remIn[g]) IN
-     /\ readQ'     = [readQ     EXCEPT ![g] = @ \cup {[id |-> m.id, addr |-> m.addr, n |-> m.n]}]
+     /\ readQ'     = [readQ     EXCEPT ![g] = Append(@, [id |-> m.id, addr |-> m.addr, n |-> m.n])]
      /\ requester' = [requester EXCEPT ![g] = m.src]
   /\ remIn' = [remIn EXCEPT ![g] = Tail(@)]
   /\ UNCHANGED <<reqv, rspQ, remOut, memOut, memIn, envv, histv>>
 
 \* sendReadReqLocalMemPort: the read carries the id of the pull it serves
-SendRead(g, q) ==
-  /\ q \in readQ[g] /\ Len(memOut[g]) < PortCap
-  /\ memOut' = [memOut EXCEPT ![g] = Append(@, Rd(q.id, q.addr, q.n))]
-  /\ readQ'  = [readQ  EXCEPT ![g] = @ \ {q}]
+SendRead(g, i) ==
+  /\ i \in 1..Len(readQ[g]) /\ Len(memOut[g]) < PortCap
+  /\ memOut' = [memOut EXCEPT ![g] = Append(@, Rd(readQ[g][i].id, readQ[g][i].addr, readQ[g][i].n))]
+  /\ readQ'  = [readQ  EXCEPT ![g] = RemoveAt(@, i)]
   /\ UNCHANGED <<reqv, requester, rspQ, remOut, remIn, memIn, envv, histv>>
 
 \* sendDataReadyRspToRequestingPMC
-SendPullRsp(g, x) ==
-  /\ x \in rspQ[g] /\ Len(remOut[g]) < PortCap
-  /\ remOut' = [remOut EXCEPT ![g] = Append(@, Data(x.id, g, x.dst, x.data))]
-  /\ rspQ'   = [rspQ   EXCEPT ![g] = @ \ {x}]
+SendPullRsp(g, i) ==
+  /\ i \in 1..Len(rspQ[g]) /\ Len(remOut[g]) < PortCap
+  /\ remOut' = [remOut EXCEPT ![g] = Append(@, Data(rspQ[g][i].id, g, rspQ[g][i].dst, rspQ[g][i].data))]
+  /\ rspQ'   = [rspQ   EXCEPT ![g] = RemoveAt(@, i)]
   /\ UNCHANGED <<reqv, readQ, requester, remIn, memOut, memIn, envv, histv>>
 
 \* ======================================================== both roles: memory replies
@@ -173,7 +174,7 @@ RecvMem(g) ==
   /\ memIn[g] # <<>>
   /\ LET m == Head(memIn[g]) IN
      \/ /\ m.k = "d"       \* data for a pull: goes back to the PMC recorded as the requester
-        /\ rspQ' = [rspQ EXCEPT ![g] = @ \cup {[id |-> m.id, data |-> m.data, dst |-> requester[g]]}]
+        /\ rspQ' = [rspQ EXCEPT ![g] = Append(@, [id |-> m.id, data |-> m.data, dst |-> requester[g]])]
         /\ UNCHANGED <<cur, pending, toCtrl>>
      \/ /\ m.k = "wd"      \* one chunk is in place (a write-done while idle: the code panics - no action)
         /\ pending[g] > 0
@@ -237,7 +238,7 @@ MemRsp(g, q) ==         \* ... executes any received request and answers it
 \* drawn does not multiply states (the implementation draws them from a global generator)
 NextReqId == 1 + Cardinality(UNION {{r.id : r \in {issued[g][i] : i \in 1..Len(issued[g])}} : g \in GPUs})
 PullId(g, c)  == cur[g].id * 100 + c
-WriteId(g, w) == cur[g].id * 100 + 50 + ((w.addr - cur[g].to) \div Unit)
+WriteId(g, i) == cur[g].id * 100 + 50 + ((writeQ[g][i].addr - cur[g].to) \div Unit)
 ReqsOf(s) == {s[i] : i \in 1..Len(s)}
 AllIssued == UNION {ReqsOf(issued[g]) : g \in GPUs}
 SrcFrames == {<<r.owner, r.from>> : r \in AllIssued}
@@ -260,9 +261,9 @@ CompNext ==
   \E g \in GPUs :
     \/ AcceptMig(g) \/ RecvPullRsp(g) \/ SendComplete(g) \/ RecvPull(g) \/ RecvMem(g)
     \/ \E c \in toPull[g] : SendPull(g, c, PullId(g, c))
-    \/ \E w \in writeQ[g] : SendWrite(g, w, WriteId(g, w))
-    \/ \E q \in readQ[g] : SendRead(g, q)
-    \/ \E x \in rspQ[g] : SendPullRsp(g, x)
+    \/ \E i \in 1..Len(writeQ[g]) : SendWrite(g, i, WriteId(g, i))
+    \/ \E i \in 1..Len(readQ[g]) : SendRead(g, i)
+    \/ \E i \in 1..Len(rspQ[g]) : SendPullRsp(g, i)
 
 EnvServe ==
   \/ \E g \in GPUs : TakeComplete(g) \/ NetTake(g) \/ MemTake(g) \/ \E q \in memPend[g] : MemRsp(g, q)
@@ -278,9 +279,9 @@ Fairness ==
        /\ WF_vars(AcceptMig(g)) /\ WF_vars(RecvPullRsp(g)) /\ WF_vars(SendComplete(g))
        /\ WF_vars(RecvPull(g)) /\ WF_vars(RecvMem(g))
        /\ WF_vars(\E c \in toPull[g] : SendPull(g, c, PullId(g, c)))
-       /\ WF_vars(\E w \in writeQ[g] : SendWrite(g, w, WriteId(g, w)))
-       /\ WF_vars(\E q \in readQ[g] : SendRead(g, q))
-       /\ WF_vars(\E x \in rspQ[g] : SendPullRsp(g, x))
+       /\ WF_vars(\E i \in 1..Len(writeQ[g]) : SendWrite(g, i, WriteId(g, i)))
+       /\ WF_vars(\E i \in 1..Len(readQ[g]) : SendRead(g, i))
+       /\ WF_vars(\E i \in 1..Len(rspQ[g]) : SendPullRsp(g, i))
        /\ WF_vars(TakeComplete(g)) /\ WF_vars(NetTake(g)) /\ WF_vars(MemTake(g))
        /\ WF_vars(\E q \in memPend[g] : MemRsp(g, q))
   /\ WF_vars(\E m \in net : NetDeliver(m))
@@ -320,7 +321,7 @@ OneAtATime ==
 
 \* every returned chunk goes back to the PMC that asked for it
 RoutedBack ==
-  /\ \A g \in GPUs : \A x \in rspQ[g] : x.dst = pullSrc[x.id]
+  /\ \A g \in GPUs : \A i \in 1..Len(rspQ[g]) : rspQ[g][i].dst = pullSrc[rspQ[g][i].id]
   /\ \A m \in net : m.k = "data" => m.dst = pullSrc[m.id]
 
 \* memory is only accessed inside the storage
@@ -328,8 +329,8 @@ InRange == \A g \in GPUs : \A q \in memPend[g] : InMem(g, q.addr, q.n)
 
 Quiescent ==
   \A g \in GPUs :
-    /\ ctrlIn[g] = <<>> /\ ~handling[g] /\ toPull[g] = {} /\ writeQ[g] = {} /\ toCtrl[g] = <<>>
-    /\ ctrlOut[g] = <<>> /\ readQ[g] = {} /\ rspQ[g] = {} /\ remOut[g] = <<>> /\ remIn[g] = <<>>
+    /\ ctrlIn[g] = <<>> /\ ~handling[g] /\ toPull[g] = {} /\ writeQ[g] = <<>> /\ toCtrl[g] = <<>>
+    /\ ctrlOut[g] = <<>> /\ readQ[g] = <<>> /\ rspQ[g] = <<>> /\ remOut[g] = <<>> /\ remIn[g] = <<>>
     /\ memOut[g] = <<>> /\ memIn[g] = <<>> /\ memPend[g] = {} /\ net = {}
 
 \* nothing is lost: when everything has drained, every request was reported complete
